@@ -4,6 +4,7 @@ import (
 	"fmt"
 	"strings"
 	"time"
+	"verif/harness/props/c09b"
 
 	"github.com/jcmturner/gokrb5/v8/client"
 	"github.com/jcmturner/gokrb5/v8/config"
@@ -45,15 +46,27 @@ func repTampers(c *Ctx) []repTamper {
 	other := types.PrincipalName{NameType: 1, NameString: []string{"someoneelse"}}
 	return []repTamper{
 		{name: "none", as: true, tgs: true},
-		{name: "nonce+1", invalidates: true, as: true, tgs: true, f: func(rep *messages.KDCRepFields, enc *messages.EncKDCRepPart, key *types.EncryptionKey, usage *uint32, skew time.Duration) { enc.Nonce++ }},
-		{name: "nonce-1", invalidates: true, as: true, tgs: true, f: func(rep *messages.KDCRepFields, enc *messages.EncKDCRepPart, key *types.EncryptionKey, usage *uint32, skew time.Duration) { enc.Nonce-- }},
-		{name: "cname", invalidates: true, as: true, tgs: true, f: func(rep *messages.KDCRepFields, enc *messages.EncKDCRepPart, key *types.EncryptionKey, usage *uint32, skew time.Duration) { rep.CName = other }},
-		{name: "crealm", invalidates: true, as: true, f: func(rep *messages.KDCRepFields, enc *messages.EncKDCRepPart, key *types.EncryptionKey, usage *uint32, skew time.Duration) { rep.CRealm = "OTHER.REALM" }},
+		{name: "nonce+1", invalidates: true, as: true, tgs: true, f: func(rep *messages.KDCRepFields, enc *messages.EncKDCRepPart, key *types.EncryptionKey, usage *uint32, skew time.Duration) {
+			enc.Nonce++
+		}},
+		{name: "nonce-1", invalidates: true, as: true, tgs: true, f: func(rep *messages.KDCRepFields, enc *messages.EncKDCRepPart, key *types.EncryptionKey, usage *uint32, skew time.Duration) {
+			enc.Nonce--
+		}},
+		{name: "cname", invalidates: true, as: true, tgs: true, f: func(rep *messages.KDCRepFields, enc *messages.EncKDCRepPart, key *types.EncryptionKey, usage *uint32, skew time.Duration) {
+			rep.CName = other
+		}},
+		{name: "crealm", invalidates: true, as: true, f: func(rep *messages.KDCRepFields, enc *messages.EncKDCRepPart, key *types.EncryptionKey, usage *uint32, skew time.Duration) {
+			rep.CRealm = "OTHER.REALM"
+		}},
 		{name: "sname", invalidates: true, as: true, f: func(rep *messages.KDCRepFields, enc *messages.EncKDCRepPart, key *types.EncryptionKey, usage *uint32, skew time.Duration) {
 			enc.SName = types.PrincipalName{NameType: 2, NameString: []string{"krbtgt", "OTHER.REALM"}}
 		}},
-		{name: "srealm", invalidates: true, as: true, tgs: true, f: func(rep *messages.KDCRepFields, enc *messages.EncKDCRepPart, key *types.EncryptionKey, usage *uint32, skew time.Duration) { enc.SRealm = "OTHER.REALM" }},
-		{name: "ticket-realm", invalidates: true, tgs: true, f: func(rep *messages.KDCRepFields, enc *messages.EncKDCRepPart, key *types.EncryptionKey, usage *uint32, skew time.Duration) { rep.Ticket.Realm = "OTHER.REALM" }},
+		{name: "srealm", invalidates: true, as: true, tgs: true, f: func(rep *messages.KDCRepFields, enc *messages.EncKDCRepPart, key *types.EncryptionKey, usage *uint32, skew time.Duration) {
+			enc.SRealm = "OTHER.REALM"
+		}},
+		{name: "ticket-realm", invalidates: true, tgs: true, f: func(rep *messages.KDCRepFields, enc *messages.EncKDCRepPart, key *types.EncryptionKey, usage *uint32, skew time.Duration) {
+			rep.Ticket.Realm = "OTHER.REALM"
+		}},
 		{name: "caddr-extra", invalidates: true, as: true, tgs: true, f: func(rep *messages.KDCRepFields, enc *messages.EncKDCRepPart, key *types.EncryptionKey, usage *uint32, skew time.Duration) {
 			enc.CAddr = append(append([]types.HostAddress{}, enc.CAddr...), addrB)
 		}},
@@ -78,7 +91,9 @@ func repTampers(c *Ctx) []repTamper {
 			k := randKey(c, key.KeyType)
 			*key = k
 		}},
-		{name: "other-usage", invalidates: true, as: true, tgs: true, f: func(rep *messages.KDCRepFields, enc *messages.EncKDCRepPart, key *types.EncryptionKey, usage *uint32, skew time.Duration) { *usage = 2 }},
+		{name: "other-usage", invalidates: true, as: true, tgs: true, f: func(rep *messages.KDCRepFields, enc *messages.EncKDCRepPart, key *types.EncryptionKey, usage *uint32, skew time.Duration) {
+			*usage = 2
+		}},
 		{name: "cipher-bitflip", invalidates: true, as: true, tgs: true, post: func(rep *messages.KDCRepFields) {
 			cph := append([]byte{}, rep.EncPart.Cipher...)
 			cph[c.R.Intn(len(cph))] ^= 1 << uint(c.R.Intn(8))
@@ -392,6 +407,60 @@ func c09(c *Ctx) {
 		c.Count("exchange:krb-error")
 	}
 	k.ErrorCode = 0
+
+	// ---- a referral: the reply of the second hop answers the request only if it is sealed under the session key
+	// issued with the referral TGT (not under the key of the TGT presented at the first hop) ----
+	for _, mode := range []string{"honest", "previous-hop-key", "random-key"} {
+		ra, rb := "HOME.GOKRB5", "FAR.GOKRB5"
+		ka, kb := kdc.New(ra), kdc.New(rb)
+		ka.StrictCRealm, kb.StrictCRealm = false, false
+		ka.AddPrincipal([]string{"testuser1"}, "passwordvalue", 2)
+		kb.AddPrincipal([]string{"HTTP", "far.example.org"}, "svcpw", 1)
+		ka.Referrals["example.org"] = rb
+		keys := map[int32]types.EncryptionKey{}
+		for _, et := range kdc.AllEtypes {
+			keys[et] = randKey(c, et)
+		}
+		ka.CrossKeys[rb] = keys
+		kb.CrossKeys[ra] = keys
+		if ka.Serve() != nil || kb.Serve() != nil {
+			c.Notes = append(c.Notes, "KDC listen (referral)")
+			continue
+		}
+		cfg := testConfig(ra, []string{ka.Addr}, []int32{18})
+		cfg.Realms = []config.Realm{{Realm: ra, KDC: []string{ka.Addr}}, {Realm: rb, KDC: []string{kb.Addr}}}
+		cl := client.NewWithPassword("testuser1", ra, "passwordvalue", cfg, client.DisablePAFXFAST(true))
+		err := cl.Login()
+		if err == nil {
+			switch mode {
+			case "previous-hop-key":
+				kb.Tamper = func(kind string, rep *messages.KDCRepFields, enc *messages.EncKDCRepPart, key types.EncryptionKey, usage uint32) (types.EncryptionKey, uint32) {
+					// the session key of the home TGT, as the home KDC logged it
+					for _, is := range ka.Issues {
+						if is.Kind == "AS" {
+							return is.Key, usage
+						}
+					}
+					return key, usage
+				}
+			case "random-key":
+				kb.Tamper = func(kind string, rep *messages.KDCRepFields, enc *messages.EncKDCRepPart, key types.EncryptionKey, usage uint32) (types.EncryptionKey, uint32) {
+					return randKey(c, key.KeyType), usage
+				}
+			}
+			_, _, err = cl.GetServiceTicket("HTTP/far.example.org")
+		}
+		reached := len(kb.Requests) > 0
+		if mode == "honest" {
+			c.Check(err == nil, "a service ticket is obtained through a referral from conformant KDCs", "referral-fails", fmt.Sprint(err), nil)
+		} else {
+			c.Check(reached && err != nil, "a second-hop reply sealed under another key than the referral TGT's session key is rejected", "referral-reply-accepted:"+mode, fmt.Sprintf("reached=%v err=%v", reached, err), nil)
+		}
+		c.Count("exchange:referral:" + mode)
+		cl.Destroy()
+		ka.Close()
+		kb.Close()
+	}
 }
 
 // buildKeytab renders a version 2 keytab holding the given keys (independent writer of c14.go)
@@ -404,4 +473,5 @@ func buildKeytab(c *Ctx, realm string, name []string, keys map[int32]types.Encry
 	return refWriteKeytab(2, items)
 }
 
-func init() { props["C09"] = c09 }
+// C09 = structure-mode stream followed by the wire-bytes stream (props/c09b)
+func init() { props["C09"] = func(c *Ctx) { c09(c); c09b.Run(c) } }
